@@ -20,6 +20,7 @@
     html.mdw     <base> <graph> <mdpat>               → <validated 0/1><known-good 0/1>:<tree tokens>|<triples of denote>
     html.chain   <init 0/1> <n:e>…                    → statements yielded (as `i.k`), `|`, final error flag
     html.facts                                        → the T2 facts the theorems consume
+    html.hostvocab                                    → x<hex> of Gen.HtmlFacts.hostDefaultVocabulary (T2: htmlrdfa decoder.go)
 -/
 import RdfModel.Driver.Wire
 import RdfModel.Spec.RdfaPatterns
@@ -185,19 +186,21 @@ def parseAlt (s : String) : Option Spec.Rdfa.Alt :=
     pure { s := a, p := b, o := c, dt := d }
   | _ => none
 
-/-- `P<take>.<shape>.<wrap>.<junk>.<vocab>/<form>/<tags>/<pfx>/<wlang>/<alt+alt+…>` -/
+/-- `P<take>.<shape>.<wrap>.<junk>.<vocab>[.<ids>]/<form>/<tags>/<pfx>/<wlang>/<alt+alt+…>` -/
 def parsePat (s : String) : Option Spec.Rdfa.Pat :=
   match s.toList with
   | 'P' :: cs =>
     match (String.ofList cs).splitOn "/" with
     | [h, form, tags, pfx, wlang, alts] =>
-      match natList h with
-      | [take, shape, wrap, junk, voc] => do
+      let mk (take shape wrap junk voc ids : Nat) : Option Spec.Rdfa.Pat := do
         let pfx ← optHex pfx
         let wlang ← optHex wlang
         let alts ← (if alts = "" then some [] else (alts.splitOn "+").mapM parseAlt)
         pure { take := take, shape := shape, wrap := wrap, junk := junk, form := natList form, tags := natList tags,
-               pfx := pfx, wlang := wlang, alts := alts, vocab := voc == 1 }
+               pfx := pfx, wlang := wlang, alts := alts, vocab := voc == 1, ids := ids }
+      match natList h with
+      | [take, shape, wrap, junk, voc] => mk take shape wrap junk voc 0
+      | [take, shape, wrap, junk, voc, ids] => mk take shape wrap junk voc ids
       | _ => none
     | _ => none
   | _ => none
@@ -213,19 +216,21 @@ def parseSkel (s : String) : Option Spec.Rdfa.Skel :=
     | _ => none
   | _ => none
 
-/-- `M<nest>.<useType>.<junk>/<form>/<tags>/<detach>/<names>/<objs>/<ids>` -/
+/-- `M<nest>.<useType>.<junk>[.<wrapId>]/<form>/<tags>/<detach>/<names>/<objs>/<ids>` -/
 def parseMdPat (s : String) : Option Spec.Microdata.MdPat :=
   match s.toList with
   | 'M' :: cs =>
     match (String.ofList cs).splitOn "/" with
     | [h, form, tags, detach, names, objs, ids] =>
-      match natList h with
-      | [nest, useType, junk] => do
+      let mk (nest useType junk wrapId : Nat) : Option Spec.Microdata.MdPat := do
         let names ← optHexList names
         let objs ← optHexList objs
         let ids ← optHexList ids
         pure { nest := nest, useType := useType, junk := junk, form := natList form, tags := natList tags,
-               detach := natList detach, names := names, objs := objs, ids := ids }
+               detach := natList detach, names := names, objs := objs, ids := ids, wrapId := wrapId }
+      match natList h with
+      | [nest, useType, junk] => mk nest useType junk 0
+      | [nest, useType, junk, wrapId] => mk nest useType junk wrapId
       | _ => none
     | _ => none
   | _ => none
@@ -314,6 +319,9 @@ def handle (op : String) (args : List String) : Option String :=
     let total := (iters.map (fun it => it.items.length)).sum
     let r := RdfModel.Html.drain init (total + 2) RdfModel.Html.Dec.new
     pure ("ok:" ++ String.intercalate "," (r.1.map (fun q => toString q.1 ++ "." ++ toString q.2)) ++ "|" ++ b01 r.2.err)
+  | "hostvocab", [] =>
+    -- the T2 fact the harness's generator constant `hostVocab` is checked against
+    pure ("ok:" ++ tokOfRunes Gen.HtmlFacts.hostDefaultVocabulary)
   | "facts", [] =>
     pure ("ok:" ++ String.intercalate "," (Gen.HtmlFacts.subFacts.map (fun f => b01 f.passesFactory ++ b01 f.defaultFresh)) ++
           "|" ++ b01 Gen.HtmlFacts.jsonldDecoderPerScript ++ "|" ++ toString Gen.HtmlFacts.chainOrder.length ++
